@@ -340,7 +340,11 @@ where
         I: IntoIterator<Item = &'a SpannedExpr<'ast, Symbol>>,
     {
         let (_, expr) = self.select_spanned(iter, |e| e.span);
-        self.visit_expr(expr.unwrap());
+        // There is nothing to select if the iterator is empty (the cursor is inside `[]` for
+        // instance)
+        if let Some(expr) = expr {
+            self.visit_expr(expr);
+        }
     }
 
     fn visit_any<I>(&mut self, iter: I)
@@ -490,7 +494,11 @@ where
             }
             Pattern::Tuple { ref elems, .. } => {
                 let (_, field) = self.select_spanned(&**elems, |elem| elem.span);
-                self.visit_pattern(field.unwrap());
+                match field {
+                    Some(field) => self.visit_pattern(field),
+                    // The unit pattern `()` has no elements to descend into
+                    None => self.found = MatchState::Empty,
+                }
             }
             Pattern::Ident(_) | Pattern::Literal(_) | Pattern::Error => {
                 self.found = if current.span.containment(self.pos) == Ordering::Equal {
@@ -714,7 +722,7 @@ where
             Expr::MacroExpansion {
                 ref replacement, ..
             } => self.visit_expr(replacement),
-            Expr::Annotated(..) => unimplemented!(), // FIXME
+            Expr::Annotated(ref expr, _) => self.visit_expr(expr),
             Expr::Error(..) => (),
         }
     }
